@@ -50,6 +50,8 @@ pub struct Field {
     pub indirect: bool,
     pub ty: String,
     pub shape: Shape,
+    /// `pub` field (the harness can take the value apart / clear the catch-all from outside the crate)
+    pub public: bool,
 }
 
 #[derive(Clone, Debug)]
@@ -72,6 +74,7 @@ pub struct Model {
     pub params: Vec<String>,
     pub derives_read: bool,
     pub derives_write: bool,
+    pub derives_debug: bool,
     pub public: bool,
     /// Rust path under which the harness can name the type (None: private / not reachable)
     pub path: Option<String>,
@@ -136,6 +139,8 @@ pub struct Extracted {
     pub option_reader: OptionReader,
     pub problems: Vec<String>,
     pub files: Vec<String>,
+    /// `X` of every `Stream<X>` spelled anywhere in the sources (`()` or the name of a derived model)
+    pub stream_infos: Vec<String>,
 }
 
 // ------------------------------------------------------------------------------------------------
@@ -1358,7 +1363,7 @@ pub fn extract(repo_root: &str) -> Extracted {
                                 ex.problems.push(format!("{}: field without key / other / skip (the derive macro panics)", fw));
                             }
                             let shape = shape_of(&f.ty, &nm, &fw, &mut ex.problems);
-                            fields.push(Field { ident, key: a.key, default: a.default, other: a.other, skip: a.skip, indirect: a.indirect, ty: type_text(&f.ty), shape });
+                            fields.push(Field { ident, key: a.key, default: a.default, other: a.other, skip: a.skip, indirect: a.indirect, ty: type_text(&f.ty), shape, public: matches!(f.vis, syn::Visibility::Public(_)) });
                         }
                     }
                     _ => ex.problems.push(format!("{}: derive on a struct without named fields", who)),
@@ -1426,6 +1431,7 @@ pub fn extract(repo_root: &str) -> Extracted {
             params,
             derives_read: derives.iter().any(|d| d == "Object"),
             derives_write: derives.iter().any(|d| d == "ObjectWrite"),
+            derives_debug: derives.iter().any(|d| d == "Debug"),
             public: r.public,
             path,
             type_name: g.type_name,
@@ -1437,6 +1443,29 @@ pub fn extract(repo_root: &str) -> Extracted {
         });
     }
     ex.models.sort_by(|a, b| a.name.cmp(&b.name));
+    // the dictionaries of typed streams: `Stream<X>` anywhere in the token text of the sources
+    {
+        let mut infos: BTreeSet<String> = BTreeSet::new();
+        for src in sources.values() {
+            let mut rest = src.as_str();
+            while let Some(i) = rest.find("Stream<") {
+                let before_ok = !rest[..i].chars().last().map(|c| c.is_alphanumeric() || c == '_').unwrap_or(false);
+                rest = &rest[i + 7..];
+                if !before_ok {
+                    continue;
+                }
+                let Some(j) = rest.find('>') else { break };
+                let x = rest[..j].trim();
+                if x == "()" || ex.models.iter().any(|m| m.name == x) {
+                    infos.insert(x.to_string());
+                }
+            }
+        }
+        if !infos.contains("()") {
+            ex.problems.push("stream infos: `Stream<()>` is spelled nowhere in the sources (pattern not found)".into());
+        }
+        ex.stream_infos = infos.into_iter().collect();
+    }
     ex.option_reader = option_reader(&parsed, &mut ex.problems);
     ex.lexical = lexical_tables(&parsed, &mut ex.problems);
     ex.dispatch = dispatch_tables(&parsed, &ex.models);
@@ -1762,6 +1791,59 @@ pub fn rust_registry(ex: &Extracted) -> String {
             _ => continue,
         };
         o.push_str(&format!("        {:?} => {{ v.{}::<{}>(name); true }}\n", n, call, ty));
+    }
+    o.push_str("        _ => false,\n    }\n}\n\n");
+    // the value side: take a value of a derived struct apart from outside the crate
+    o.push_str("pub trait ValueSide {\n    /// replaces the catch-all; None: the model has none; Some(false): it is not a public field\n    fn set_other(&mut self, d: Dictionary) -> Option<bool>;\n    /// the catch-all (None: none, or not public)\n    fn other_dict(&self) -> Option<Dictionary>;\n    /// (field, key, Debug text) of every public keyed field\n    fn fields_debug(&self) -> Vec<(&'static str, &'static str, String)>;\n    /// keyed fields that are not public (not compared)\n    fn hidden_fields() -> &'static [&'static str];\n    /// None: no catch-all field; Some(public?)\n    fn catch_all() -> Option<bool>;\n    /// Debug text of the whole value (None: the type has no Debug)\n    fn whole_debug(&self) -> Option<String>;\n}\n\n");
+    o.push_str("pub trait ValueVisitor {\n    fn value_side<T: pdf::object::Object + pdf::object::ObjectWrite + ValueSide + 'static>(&mut self, name: &str);\n}\n\n");
+    let mut vs_models: Vec<(String, String)> = vec![];
+    for (n, ty, rd, wr) in &typed {
+        let base = n.split('<').next().unwrap();
+        let Some(m) = ex.models.iter().find(|m| m.name == base) else { continue };
+        if m.kind != "struct" || !*rd || !*wr {
+            continue;
+        }
+        let other = m.fields.iter().find(|f| f.other);
+        let clear = match other {
+            None => "let _ = d; None".to_string(),
+            Some(f) if f.public => format!("self.{} = d; Some(true)", f.ident),
+            Some(_) => "let _ = d; Some(false)".to_string(),
+        };
+        let other_get = match other {
+            Some(f) if f.public => format!("Some(self.{}.clone())", f.ident),
+            _ => "None".to_string(),
+        };
+        let mut dbg = String::new();
+        let mut hidden = vec![];
+        for f in m.fields.iter().filter(|f| !f.other && !f.skip) {
+            if f.public && m.derives_debug {
+                dbg.push_str(&format!("            ({:?}, {:?}, format!(\"{{:?}}\", self.{})),\n", f.ident, f.key.clone().unwrap_or_default(), f.ident));
+            } else {
+                hidden.push(format!("{:?}", f.ident));
+            }
+        }
+        o.push_str(&format!("impl ValueSide for {} {{\n    fn set_other(&mut self, d: Dictionary) -> Option<bool> {{ {} }}\n    fn other_dict(&self) -> Option<Dictionary> {{ {} }}\n    fn fields_debug(&self) -> Vec<(&'static str, &'static str, String)> {{\n        vec![\n{}        ]\n    }}\n    fn hidden_fields() -> &'static [&'static str] {{ &[{}] }}\n    fn catch_all() -> Option<bool> {{ {} }}\n    fn whole_debug(&self) -> Option<String> {{ {} }}\n}}\n\n", ty, clear, other_get, dbg, hidden.join(", "), match other { None => "None", Some(f) if f.public => "Some(true)", Some(_) => "Some(false)" }, if m.derives_debug { "Some(format!(\"{:?}\", self))" } else { "None" }));
+        vs_models.push((n.clone(), ty.clone()));
+    }
+    // dictionaries of typed streams
+    o.push_str("impl ValueSide for () {\n    fn set_other(&mut self, _d: Dictionary) -> Option<bool> { None }\n    fn other_dict(&self) -> Option<Dictionary> { None }\n    fn fields_debug(&self) -> Vec<(&'static str, &'static str, String)> { vec![] }\n    fn hidden_fields() -> &'static [&'static str] { &[] }\n    fn catch_all() -> Option<bool> { None }\n    fn whole_debug(&self) -> Option<String> { Some(\"()\".into()) }\n}\n\n");
+    o.push_str("pub trait StreamInfoVisitor {\n    fn stream_info<I: pdf::object::Object + pdf::object::ObjectWrite + ValueSide + 'static>(&mut self, name: &str);\n}\n\n");
+    o.push_str("pub fn visit_stream_info(name: &str, v: &mut impl StreamInfoVisitor) -> bool {\n    match name {\n        \"()\" => { v.stream_info::<()>(name); true }\n");
+    let mut stream_infos: Vec<(String, bool)> = vec![("()".into(), true)];
+    for x in ex.stream_infos.iter().filter(|x| x.as_str() != "()") {
+        match vs_models.iter().find(|(n, _)| n == x) {
+            Some((n, ty)) => {
+                o.push_str(&format!("        {:?} => {{ v.stream_info::<{}>(name); true }}\n", n, ty));
+                stream_infos.push((x.clone(), true));
+            }
+            None => stream_infos.push((x.clone(), false)),
+        }
+    }
+    o.push_str("        _ => false,\n    }\n}\n\n");
+    o.push_str(&format!("/// (X, can the harness name and take apart the type?) for every `Stream<X>` of the sources\npub const STREAM_INFOS: &[(&str, bool)] = &[{}];\n\n", stream_infos.iter().map(|(n, t)| format!("({:?}, {})", n, t)).collect::<Vec<_>>().join(", ")));
+    o.push_str("pub fn visit_value_side(name: &str, v: &mut impl ValueVisitor) -> bool {\n    match name {\n");
+    for (n, ty) in &vs_models {
+        o.push_str(&format!("        {:?} => {{ v.value_side::<{}>(name); true }}\n", n, ty));
     }
     o.push_str("        _ => false,\n    }\n}\n\n");
     o.push_str("pub const TYPED_MODELS: &[(&str, &str, bool, bool)] = &[\n");
